@@ -195,6 +195,26 @@ def entry_orders(rule, base, bad, mode, req_bad, req_base):
                 yield (rule + "/entry-order", None, b2, mode, None, None)
 
 
+def outrank_request(d):
+    """the inputs of `Header.__make_shape`'s scan, read from the real IR at the point the header is made: the output's ranks (after
+    partitioning and the loop-order swizzle) and, per rank and loop position, `LoopOrder.is_ready` of the rank's final id"""
+    from teaal.parse import Einsum, Mapping
+    from teaal.ir.program import Program
+    dd = copy.deepcopy(d)
+    dd.setdefault("mapping", {})
+    p = Program(Einsum(copy.deepcopy(dd)), Mapping(copy.deepcopy(dd)))
+    p.add_einsum(0)
+    out = p.get_equation().get_output()
+    p.apply_all_partitioning(out)
+    lo = p.get_loop_order()
+    lo.apply(out)
+    part = p.get_partitioning()
+    ranks = list(out.get_ranks())
+    n = len(lo.get_ranks())
+    ready = [[bool(lo.is_ready(part.get_final_rank_id(out.get_init_ranks(), r), pos)) for pos in range(n)] for r in ranks]
+    return {"op": "legality", "kind": "outrank", "ranks": ranks, "ready": ready, "nloops": n}
+
+
 def run(ctx):
     ctx.rule = ("each legality rule injected into otherwise legal specifications at every position (every tensor and rank position for duplicates, every term position and direction "
                 "for rank sets, every stack position for n-way after occupancy, every key for the flatten rules, every Einsum of the accelerator specifications for the missing config); "
@@ -225,6 +245,15 @@ def run(ctx):
                                    detail=str(msg)[:600],
                                    reason=("the illegal specification (%s) was compiled and %d characters of program text returned" % (rule, len(msg))) if kind == "compiled"
                                    else "the illegal specification (%s) raises %s instead of ValueError" % (rule, kind)), True)
+            if rule == "loop-order-projects-into-output":
+                # the scan of Header.__make_shape (C18.outScan_iff): model on the real IR's availability table vs the guard that fired
+                for dd, (k2, m2) in ((bad, (kind, msg)), (base, outcome(base, mode))):
+                    try:
+                        rq = outrank_request(dd)
+                    except Exception:
+                        ctx.stat("outrank_request_failed"); continue
+                    fired = k2 == "ValueError" and "Cannot project into the output tensor. Add " in str(m2)
+                    reqs.append(rq); metas.append((rule + "/out-rank-scan", dd, fired))
             if req_bad is not None:
                 reqs.append(req_bad); metas.append((rule, bad, True))
             if req_base is not None:
